@@ -9,7 +9,8 @@ first=1
 for d in seeded/C*/; do
   name=$(basename $d)
   id=${name%%-*}
-  line=$(tools/try_patch.sh $d/patch.diff $id 2>&1 | tail -1)
+  if grep -q '"neutralised_by"' $d/meta.json 2>/dev/null; then echo "$name :: skipped (neutralised by a later fix, see meta.json)"; continue; fi
+  line=$(tools/try_patch.sh "$PWD/${d%/}/patch.diff" $id 2>&1 | tail -1)
   echo "$name :: $line"
   rc=$(echo "$line" | sed -n 's/.* rc=\([0-9]*\) .*/\1/p')
   msg=$(echo "$line" | sed 's/.*:: //' | cut -c1-300 | python3 -c 'import json,sys; print(json.dumps(sys.stdin.read().strip()))')
